@@ -1,44 +1,47 @@
 import LokiModel.Props.C43
 /-!
-# C43 — witnesses of the open findings (statements about *defects of the current code*; not gating)
+# C43 — witnesses of the open findings and regression statements about repaired ones (not gating)
 
-* `ops-fix-raises`: `Fortran90OperatorsRule.fix_subroutine` calls `update_metadata` on an IR node: the model of
-  `Linter.fix` raises for every non-empty report list.
-* `ops-nonlower-spelling`: `.EQ.` (upper case) with no `==` on any line of the node: `line[0]` raises `IndexError`.
-* `ops-span-heuristic`: a statement with F90 operators only whose `Source.find` span is cut short raises as well.
-* `ops-lookalike-in-literal`: `.eq.` inside a character literal is reported.
-* `ops-mixed-spelling-in-node`: `a <= b .and. a .lt. n` reports nothing.
+Repaired (`fix:` commits): `ops-fix-raises` (the fixer called `update_metadata`, which no IR node has: `fixOutcomeOld`),
+`ops-nonlower-spelling` (the fallback line search used the case-sensitive `str.replace`: `pickLineOld`).
+Open: `ops-span-heuristic`, `ops-lookalike-in-literal`, `ops-mixed-spelling-in-node` (witnesses below).
 -/
 namespace LokiModel.C43
 
-/-- the full statement about the fixer that runs: a file with reports gets fixed (does not raise) -/
-def C43_real_fix_full : Prop := ∀ rs : List Report, fixOutcome rs ≠ .raises
+/-- the fixer before the repair: raises `AttributeError` as soon as there is one report -/
+def fixOutcomeOld (reports : List Report) : Option FixOutcome :=
+  if reports.isEmpty then some .untouched else none
 
-theorem C43_real_fix_raises (rs : List Report) (h : rs ≠ []) : fixOutcome rs = .raises := by
+theorem C43_old_fix_raises (rs : List Report) (h : rs ≠ []) : fixOutcomeOld rs = none ∧ fixOutcome rs = .ran := by
   cases rs with
   | nil => exact absurd rfl h
-  | cons r rs => rfl
+  | cons r rs => exact ⟨rfl, rfl⟩
 
-theorem C43_real_fix_full_false : ¬ C43_real_fix_full := by
-  intro h
-  exact h [⟨.eq, ".eq.".toList, 6⟩] rfl
+/-- the line choice before the repair of `ops-nonlower-spelling` (case-sensitive `str.replace`) -/
+def pickLineOld (lines : List Line) (k : Op) : Option Line :=
+  match lines.filter (fun l => hasSub k.sym (stripInline l)) with
+  | l :: _ => some l
+  | [] =>
+    match lines.filter (fun l => hasSub k.sym (stripInline (replaceAll k.f77 k.sym 0 l))) with
+    | l :: _ => some l
+    | [] => none
+
+def witnessUpper : Node := ⟨6, "  if (a .EQ. b) a = 1".toList, [⟨"a == b".toList, [.eq]⟩]⟩
+
+/-- `.EQ.`: the old line choice found no line (`line[0]` raised `IndexError`), the repaired one reports it -/
+theorem C43_upper_old_raises_new_reports :
+    pickLineOld [witnessUpper.src] .eq = none ∧
+    detect [witnessUpper] = some [⟨.eq, ".EQ.".toList, 6⟩] := by decide
 
 /-- the full statement about the detection: the check never raises -/
 def C43_detect_total : Prop := ∀ ns : List Node, detect ns ≠ none
-
-def witnessUpper : Node := ⟨6, "  if (a .EQ. b) a = 1".toList, [⟨"a == b".toList, [.eq]⟩]⟩
-def witnessLower : Node := ⟨6, "  if (a .eq. b) a = 1".toList, [⟨"a == b".toList, [.eq]⟩]⟩
-
-theorem C43_detect_upper_raises : detect [witnessUpper] = none := by decide
-
-theorem C43_detect_lower_reports : detect [witnessLower] = some [⟨.eq, ".eq.".toList, 6⟩] := by decide
-
-theorem C43_detect_total_false : ¬ C43_detect_total := fun h => h [witnessUpper] C43_detect_upper_raises
 
 /-- only F90 operators, and the check raises: the span found for `not (3 < n and (a - b) > b)` ends at the first `b)` -/
 theorem C43_detect_f90_only_raises :
     detect [⟨6, "  l = .not. (3 < n .and. (a - b)>b)".toList,
              [⟨"not (3 < n and (a - b) > b)".toList, [.lt, .gt]⟩]⟩] = none := by decide
+
+theorem C43_detect_total_false : ¬ C43_detect_total := fun h => h _ C43_detect_f90_only_raises
 
 /-- `.eq.` inside a character literal is reported -/
 theorem C43_detect_literal_reported :
